@@ -80,6 +80,8 @@ class ApiModel(object):
 
     def op_set_invalid(self, rng):
         value, reason = tablegen.invalid_update(rng, current=dict(self.model))
+        if type(value) is dict:
+            value = tablegen.as_caller_dict(value, rng, p_plain=0.6)      # an invalid table is invalid in any dict type
         before = self.observe()
         self.log.append(["set-invalid", repr(value), reason])
         r = call_guard(lambda: self.sf.set_semantic_constraints(value))
